@@ -138,6 +138,11 @@ func genC16(seed uint64, tier string) Scenario {
 		for i := 0; i < n; i++ {
 			extra = append(extra, CtlOp{Wait: genShutdownTrigger(g), Op: g.Pick("register", "getlistener", "register"), Arg: 100 + i})
 		}
+		if g.Pct(35) {
+			// Shutdown as soon as a connection shows up, then a registration at once: it
+			// must not slip in between the accept and the moment the connection counts
+			extra = append(extra, CtlOp{Wait: g.Pick("dialed:+1", "accepted:+1", "dialed:+2"), Op: "shutdown"}, CtlOp{Op: "register", Arg: 200}, CtlOp{Op: "register", Arg: 201})
+		}
 		s.Ctl = append(s.Ctl, extra)
 		return wrapRace("life", s)
 	case k < 7:
